@@ -17,5 +17,7 @@ def run(c):
 cs = [c for c in m["checks"] if not only or c["property_id"] in only]
 with ThreadPoolExecutor(par) as ex:
     for pid, rc, w, lines in ex.map(run, cs):
-        print(f"{pid} rc={rc} {w}s")
-        for l in lines: print("   ", l[:200])
+        nk = sum(1 for l in lines if l.startswith("KNOWN"))
+        print(f"{pid} rc={rc} {w}s known-findings={nk}")
+        for l in lines:
+            if l.startswith("VIOLATION"): print("   ", l[:200])
